@@ -54,6 +54,7 @@ func GenTxOps(t *rapid.T, o TxGenOpts) []Op {
 				op.Len = GenLen(t, o.BigContent)
 				if rapid.IntRange(0, 5).Draw(t, "viaSel") == 0 {
 					op.Via, op.Split = GenVia(t, op.Len)
+					op.CancelClose = GenCancelClose(t, op.Via)
 				}
 			}
 			if o.LateWeight > 0 && rapid.IntRange(1, 100).Draw(t, "late") <= o.LateWeight {
